@@ -465,6 +465,35 @@ HELPER_SKIP = {'is_job_invalid', 'is_job_invalid_light'}
 _PSUB = []   # stack of {callee parameter name: argument rendered in the caller's terms}
 
 
+def _delegates(P, H):
+    """helpers H hands its verdict to: `return helper(args);`"""
+    for b in H.blocks.values():
+        for ev in b['ev']:
+            if ev['k'] == 'return' and ev.get('val') is not None:
+                c = cf.strip_casts(ev['val'])
+                if isinstance(c, dict) and c.get('k') == 'call' and c.get('fn') and c['fn'] != H.name and c['fn'] not in HELPER_SKIP \
+                        and P.has(H.tu, c['fn']):
+                    yield P.func(H.tu, c['fn'])
+
+
+def _sets_errno(P, H, depth=0):
+    if any(True for _ in H.calls('imb_set_errno')):
+        return True
+    return depth < 2 and any(_sets_errno(P, D, depth + 1) for D in _delegates(P, H))
+
+
+def _reject_values(P, H, depth=0):
+    rvals = set()
+    for hb in H.blocks.values():
+        hg = is_guard_block(hb, func=H)
+        if hg:
+            rvals.add(cf.evalc(hg[1]) if hg[1] is not None else None)
+    if depth < 2:
+        for D in _delegates(P, H):
+            rvals |= _reject_values(P, D, depth + 1)
+    return rvals
+
+
 def _catalogue(func, depth=0):
     out = []
     dom = func.dominators()
@@ -515,14 +544,10 @@ def _catalogue(func, depth=0):
             if not P.has(func.tu, c['fn']):
                 continue
             H = P.func(func.tu, c['fn'])
-            if not any(True for _ in H.calls('imb_set_errno')):
+            if not _sets_errno(P, H):
                 continue
             # which value does the helper return when it rejects?  `return 1 / -1` (an "is invalid" predicate) or `return 0` (an "is valid" one)
-            rvals = set()
-            for hb in H.blocks.values():
-                hg = is_guard_block(hb, func=H)
-                if hg:
-                    rvals.add(cf.evalc(hg[1]) if hg[1] is not None else None)
+            rvals = _reject_values(P, H)
             rejects_with_zero = bool(rvals) and rvals <= {0}
             if rejects_with_zero:
                 rej = b['succ'][0] if neg else b['succ'][1]
@@ -563,7 +588,7 @@ def _catalogue(func, depth=0):
                 if not P.has(func.tu, c['fn']):
                     continue
                 H = P.func(func.tu, c['fn'])
-                if not any(True for _ in H.calls('imb_set_errno')):
+                if not _sets_errno(P, H):
                     continue
                 psub = {}
                 for i, prm in enumerate(H.params):
